@@ -70,14 +70,14 @@ def load_ocr_engine(path, chars, H=16, seed=0, batch_size=8, **kw):
     return eng, net
 
 
-def make_lstm_lm(letters, seed, dim=8, double=True, dropout=0.0, train_mode=False):
+def make_lstm_lm(letters, seed, dim=8, double=True, dropout=0.0, train_mode=False, eos_first=False):
     """A real brnolm LanguageModel (2-layer LSTM + full softmax) with seeded random weights: history dependent."""
     import torch
     from brnolm.language_models.language_model import LanguageModel
     from brnolm.language_models.lstm_model import LSTMLanguageModel
     from brnolm.language_models.decoders import FullSoftmaxDecoder
     torch.manual_seed(seed)
-    vocab = {'<unk>': 0, '</s>': 1}
+    vocab = {'<unk>': 0, '</s>': 1} if not eos_first else {'</s>': 0, '<unk>': 1}       # both layouts of the two special symbols occur in trained models
     for i, c in enumerate(letters):
         vocab[c] = i + 2
     enc = torch.nn.Embedding(len(vocab), dim)
@@ -97,9 +97,10 @@ def lstm_lm_score(lm, seq_ids, h0=None, eos=False):
     """the model's own score of a transcript (decoder symbol indices), walking the torch modules one symbol at a time"""
     import torch
     with torch.no_grad():
+        e = lm.vocab['</s>']
         if h0 is None:
             h = lm.model.init_hidden(1)
-            _, h = lm.model(torch.tensor([[1]]), h)
+            _, h = lm.model(torch.tensor([[e]]), h)
         else:
             h = h0
         tot = 0.0
@@ -108,7 +109,7 @@ def lstm_lm_score(lm, seq_ids, h0=None, eos=False):
             tot += y[s + 2].item()
             _, h = lm.model(torch.tensor([[s + 2]]), h)
         if eos:
-            tot += lm.decoder(h[0][-1])[0][1].item()
+            tot += lm.decoder(h[0][-1])[0][e].item()
     return tot, h
 
 
